@@ -256,6 +256,7 @@ StrApply(s, op) ==
     [] op.op = "insertSelf"    -> R(op.pos <= n, Ins(s, op.pos, s), 0)
     [] op.op = "insertSub"     -> R(op.pos <= n /\ op.pos2 + op.n <= Len(op.src), Ins(s, op.pos, Slice(op.src, op.pos2, op.n)), 0)
     [] op.op = "insertSubSelf" -> R(op.pos <= n /\ op.pos2 + op.n <= n, Ins(s, op.pos, Slice(s, op.pos2, op.n)), 0)
+    [] op.op = "insertRangeSelf" -> R(op.pos <= n /\ op.pos2 + op.n <= n, Ins(s, op.pos, Slice(s, op.pos2, op.n)), 0)   \* insert(p, first, last), [first, last) in the string itself: "equivalent to insert(p - begin(), basic_string(first, last))"
     [] op.op = "insertN"       -> R(op.pos <= n, Ins(s, op.pos, Rep(op.n, op.ch)), 0)        \* insert(pos, n, ch)
     [] op.op = "insertIt"      -> R(op.pos <= n, Ins(s, op.pos, <<op.ch>>), op.pos)          \* insert(iterator, ch) -> iterator
     [] op.op = "erase"         -> R(op.pos <= n /\ (op.n = Npos \/ op.pos + op.n <= n),
